@@ -179,6 +179,18 @@ def shim(module, names, explicit):
         g[n] = v
 
 
+def shim_defaults(fn, names):
+    """replace captured default arguments (e.g. pack=struct.pack) by the standard shims"""
+    import inspect
+    params = list(inspect.signature(fn).parameters.values())
+    pos = [p for p in params if p.default is not inspect.Parameter.empty and p.kind in (p.POSITIONAL_OR_KEYWORD, p.POSITIONAL_ONLY)]
+    d = list(fn.__defaults__ or ())
+    for i, p in enumerate(pos):
+        if p.name in names:
+            d[i] = names[p.name]
+    fn.__defaults__ = tuple(d)
+
+
 def cut(reason):
     ctx().cuts += 1
     raise Cut(reason)
